@@ -1,16 +1,22 @@
 """C12 — secrets never appear in logs, repr or error messages.
 
 proof : coq/proofs/Secrets_Proofs.v (T1 no_secret_in_observables, T2 secrets_typed_only_when_asked,
-        T3 no_secret_causal_device, unrepaired_refuted), props/C12.v.
-tie   : (a) Gen_Sinks.v regenerated from the source (every logger.* / raise / __repr__ / __str__ sink with the
-        identifiers flowing into it) + `sinks_ok gen_sinks = true` decided by vm_compute;
+        T3 no_secret_causal_device, unrepaired_refuted, resp_observers_ok, resp_repr_refuted), props/C12.v.
+tie   : (a) Gen_Sinks.v regenerated from the source (every logger.* / raise / __repr__ / __str__ sink of EVERY module of
+        the package — scrapli/response.py, helper.py, factory.py included — with the identifiers flowing into it, closed
+        under local assignments, call edges and attribute stores) + `sinks_ok (outside known_region gen_sinks) = true`
+        decided by vm_compute (the full statement is refuted: known finding C12-response-*-hidden-input);
         (b) correspondence of model/Secrets.v [run_op] against the real channel / driver code (sync and asyncio)
         on the same generated scenarios: canary secrets through every in-channel login path, privilege escalation,
         hidden interact events, failing paths; the model is evaluated by vm_compute on the history observed at the
         transport and must produce the same I/O trace (write records REDACTED or not, reads, channel log, exceptions).
 oracle: independent of the model — every record on the 'scrapli' logger tree at DEBUG, both file handlers of
         scrapli.logging, repr/str of the driver, str() of every exception in the chain, and what the device
-        executed as a command line, are scanned for every encoding of every canary."""
+        executed as a command line, are scanned for every encoding of every canary; so are str() / repr() of every
+        Response / MultiResponse handed to the user and the exception of its raise_for_status() (failed responses of
+        hidden interactions included; one model case per probe).  Oracle-only (outside the Coq model):
+        Response.textfsm_parse_output, and the failing writes of the runs through the REAL transport plugins (harness/c12_rt.py: fake pty / socket / stream / library channel) with the
+        endpoint dead at a write of the login / escalation / hidden-input dialogue."""
 import asyncio
 import io
 import json
@@ -30,6 +36,8 @@ SOURCES = [
     "scrapli/transport/plugins/paramiko/transport.py", "scrapli/transport/plugins/asyncssh/transport.py",
     "scrapli/transport/plugins/system/transport.py", "scrapli/driver/generic/base_driver.py",
     "scrapli/driver/generic/sync_driver.py", "scrapli/driver/generic/async_driver.py", "scrapli/decorators.py",
+    "scrapli/response.py", "scrapli/helper.py", "scrapli/transport/plugins/telnet/transport.py",
+    "scrapli/transport/plugins/asynctelnet/transport.py",
 ]
 META = ["%s", "{0}", "\\", "(", "[", "$", "%(x)s", ".*", "{}", "\\d", "^", "|", "?", "*", "+", ")", "]", "%d", "%r",
         "'", '"', " ", "#", ">", "{", "}", "%"]
@@ -54,16 +62,28 @@ def canary(rng, tag, metas=None):
     return s
 
 
+_ENC = {}
+
+
 def encodings(s):
     """the ways a python str can show up in a record / message / repr / byte stream"""
-    out = {s, repr(s)[1:-1], repr(s.encode())[2:-1], s.replace("\\", "\\\\"), repr(repr(s))[2:-2]}
-    out |= {e.lower() for e in out}
-    return sorted(e for e in out if e)
+    r = _ENC.get(s)
+    if r is None:
+        out = {s, repr(s)[1:-1], repr(s.encode())[2:-1], s.replace("\\", "\\\\"), repr(repr(s))[2:-2]}
+        out |= {e.lower() for e in out}
+        if len(_ENC) > 20000:
+            _ENC.clear()
+        r = _ENC[s] = (sorted(e for e in out if e), sorted({e.lower() for e in out if e}))
+    return r[0]
 
 
 def occurs(s, text):
     t = text.lower()
-    return any(e.lower() in t for e in encodings(s))
+    r = _ENC.get(s)
+    if r is None:
+        encodings(s)
+        r = _ENC[s]
+    return any(e in t for e in r[1])
 
 
 def as_text(x):
@@ -458,14 +478,19 @@ def run_scenario(sc, workdir):
         kw["timeout_ops"] = TIMEOUT_OPS
     chanlog = _ChanLog(events)
     kw["channel_log"] = chanlog
-    obs = {"exceptions": [], "reprs": [], "results": []}
+    obs = {"exceptions": [], "reprs": [], "results": [], "responses": []}
     r = Runner(stack)
     d = None
     wctx = warnings.catch_warnings(record=True)
     wlist = wctx.__enter__()
     warnings.simplefilter("always")
     try:
-        d = make_driver(sc["kind"], stack, dev, tuple(sc.get("policy", ["whole"])), sc.get("fault"), **kw)
+        if sc.get("transport"):
+            # the REAL transport plugin with a fake endpoint (pty / socket / stream pair / library channel)
+            from .c12_rt import make_real_driver
+            d = make_real_driver(sc["kind"], sc["transport"], dev, tuple(sc.get("policy", ["whole"])), sc.get("fault"), **kw)
+        else:
+            d = make_driver(sc["kind"], stack, dev, tuple(sc.get("policy", ["whole"])), sc.get("fault"), **kw)
         instrument(d, stack, events, block)
 
         def note_exc(e, where):
@@ -475,6 +500,42 @@ def run_scenario(sc, workdir):
                 chain.append({"cls": _exc_name(e), "text": str(e) if isinstance(e, Exception) else "", "args": repr(getattr(e, "args", ""))})
                 e = e.__cause__ or e.__context__
             obs["exceptions"].append({"where": where, "chain": chain})
+
+        def probe_response(res, hidden, probes=None):
+            """what a user does with a Response / MultiResponse: str(), repr(), raise_for_status(), textfsm parsing.
+            repr() and textfsm_parse_output() of a response whose channel_input holds a hidden input are the region of
+            the known finding C12-response-hidden-input: only probed when the scenario asks for it (finding replays)"""
+            if probes is None:
+                probes = ["str", "raise_for_status"] + ([] if hidden else ["repr"])
+            obs["responses"].append({"cls": type(res).__name__, "failed": bool(res.failed), "hidden": bool(hidden), "probes": list(probes)})
+            elems = list(res.data) if hasattr(res, "data") else [res]
+            # what the model's [resp] record is built from (model/Secrets.v)
+            rdesc = {"host": res.host, "input": "\n".join(str(x.channel_input) for x in elems),
+                     "fwc": "\n".join(str(x.failed_when_contains) for x in elems), "failed": bool(res.failed)}
+            for pr in probes:
+                events.append(("step", "probe_" + pr))
+                shown, exc = "", None
+                try:
+                    if pr == "str":
+                        shown = str(res)
+                        obs["reprs"].append(("response_str", shown))
+                    elif pr == "repr":
+                        shown = repr(res)
+                        obs["reprs"].append(("response_repr", shown))
+                    elif pr == "raise_for_status":
+                        res.raise_for_status()
+                    elif pr == "textfsm":
+                        res.textfsm_parse_output()
+                    else:
+                        raise ValueError("unknown probe %r" % (pr,))
+                except ValueError:
+                    raise
+                except Exception as e:  # noqa
+                    note_exc(e, "response." + pr)
+                    exc = (_exc_name(e), str(e) + " " + repr(getattr(e, "args", "")))
+                finally:
+                    events.append(("resp_probe", pr, rdesc, shown, exc))
+                    events.append(("step", "probe_end"))
 
         for op in sc["ops"]:
             name = op[0]
@@ -493,16 +554,29 @@ def run_scenario(sc, workdir):
                 elif name == "login_telnet":
                     r.call(d.channel.channel_authenticate_telnet, op[1], op[2])
                 elif name == "send_command":
-                    res = r.call(d.send_command, op[1])
+                    kw2 = {}
+                    if len(op) > 2 and op[2] is not None:
+                        kw2["failed_when_contains"] = list(op[2])
+                    res = r.call(d.send_command, op[1], **kw2)
                     obs["results"].append(res.result)
-                    obs["reprs"].append(("response", repr(res)))
+                    probe_response(res, False, op[3] if len(op) > 3 else None)
+                elif name == "send_commands":
+                    kw2 = {}
+                    if len(op) > 2 and op[2] is not None:
+                        kw2["failed_when_contains"] = list(op[2])
+                    res = r.call(d.send_commands, list(op[1]), **kw2)
+                    obs["results"].append(res.result)
+                    probe_response(res, False, op[3] if len(op) > 3 else None)
                 elif name == "send_interactive":
                     evs = [tuple(e) for e in op[1]]
                     kw2 = {}
                     if len(op) > 2 and op[2] is not None:
                         kw2["interaction_complete_patterns"] = list(op[2])
+                    if len(op) > 3 and op[3] is not None:
+                        kw2["failed_when_contains"] = list(op[3])
                     res = r.call(d.send_interactive, evs, **kw2)
                     obs["results"].append(res.result)
+                    probe_response(res, any(len(e) > 2 and e[2] for e in evs), op[4] if len(op) > 4 else None)
                 elif name == "acquire_priv":
                     r.call(d.acquire_priv, op[1])
                 elif name == "get_prompt":
@@ -551,11 +625,18 @@ def run_scenario(sc, workdir):
 class _Endpoint:
     """stands for the pty / socket / paramiko channel / asyncssh stdin a real transport writes to"""
 
-    def __init__(self):
+    def __init__(self, fault=None):
         self.got = []
         self.sock = self
+        self.fault = fault or {}
+        self.n = 0
 
     def write(self, b):
+        self.n += 1
+        if self.fault.get("write_at") == self.n:
+            # the pty / socket / library channel is dead when this write happens
+            from .c12_rt import WRITE_EXC
+            raise WRITE_EXC[self.fault.get("exc", "EIO")]()
         self.got.append(bytes(b))
 
     send = write
@@ -613,14 +694,19 @@ def run_transport_writes(sc, workdir):
                 obs["skipped"] = "%s: %s" % (type(e).__name__, e)
                 d = None
             if d is not None:
-                ep = _Endpoint()
+                ep = _Endpoint(sc.get("fault"))
                 setattr(d.transport, sc["attr"], ep)
                 for (val, red) in sc["writes"]:
                     try:
                         d.channel.write(channel_input=val, redacted=red)
                         d.channel.send_return()
                     except Exception as e:  # noqa
-                        obs["exceptions"].append({"where": "write", "chain": [{"cls": type(e).__name__, "text": str(e), "args": repr(e.args)}]})
+                        chain, seen = [], set()
+                        while e is not None and id(e) not in seen:
+                            seen.add(id(e))
+                            chain.append({"cls": type(e).__name__, "text": str(e), "args": repr(e.args)})
+                            e = e.__cause__ or e.__context__
+                        obs["exceptions"].append({"where": "write", "chain": chain})
                 obs["results"] = [b.decode("latin-1") for b in ep.got]
                 obs["reprs"] += [("repr", repr(d)), ("str", str(d)), ("repr_transport", repr(d.transport) + str(d.transport))]
             obs["warnings"] = [str(w.message) for w in wl]
@@ -632,13 +718,19 @@ def run_transport_writes(sc, workdir):
     return obs
 
 
-def sc_transport(rng, tname, stack, attr):
+def sc_transport(rng, tname, stack, attr, fault_at=None):
+    """fault_at: which endpoint write (1-based; payload and return alternate) finds the endpoint dead"""
     pw, ph, hid = canary(rng, "P"), canary(rng, "K"), canary(rng, "H")
     cmd = "show yam%d" % rng.randrange(100)
-    return {"family": "transport-write", "mode": tname, "kind": "generic", "stack": stack, "policy": ["whole"],
-            "transport": tname, "attr": attr, "driver_kwargs": {"auth_password": pw, "auth_private_key_passphrase": ph},
-            "secrets": {"password": pw, "passphrase": ph, "hidden": hid}, "publics": [cmd],
-            "writes": [[pw, True], [cmd, False], [ph, True], [hid, True]], "ops": []}
+    sc = {"family": "transport-write", "mode": tname, "kind": "generic", "stack": stack, "policy": ["whole"],
+          "transport": tname, "attr": attr, "driver_kwargs": {"auth_password": pw, "auth_private_key_passphrase": ph},
+          "secrets": {"password": pw, "passphrase": ph, "hidden": hid}, "publics": [cmd],
+          "writes": [[pw, True], [cmd, False], [ph, True], [hid, True]], "ops": []}
+    if fault_at is not None:
+        from .c12_rt import TRANSPORTS
+        sc["fault"] = {"write_at": fault_at, "exc": rng.choice(TRANSPORTS[tname][2])}
+        sc["mode"] = tname + "+write-fault"
+    return sc
 
 
 # ------------------------------------------------------------------------------------------------
@@ -655,15 +747,27 @@ def oracle(sc, obs):
             if val and occurs(val, t):
                 leaks.append({"where": where, "secret": name, "excerpt": t[:300]})
 
+    # records emitted while a Response is being parsed (textfsm_parse_output) are attributed to that probe
+    step, parse_texts = None, []
     for ev in obs["events"]:
-        if ev[0] == "log":
-            scan("log record %s %s" % (ev[1], ev[2]), ev[3])
+        if ev[0] == "step":
+            step = ev[1]
+        elif ev[0] == "log":
+            if step == "probe_textfsm":
+                scan("response_textfsm log record %s %s" % (ev[1], ev[2]), ev[3])
+                if ev[3]:
+                    parse_texts.append(ev[3])
+            else:
+                scan("log record %s %s" % (ev[1], ev[2]), ev[3])
     for k, text in obs["files"].items():
         for ln in text.split("\n"):
-            scan("log file (%s handler)" % k, ln)
+            if any(t in ln for t in parse_texts):
+                scan("response_textfsm log file (%s handler)" % k, ln)
+            else:
+                scan("log file (%s handler)" % k, ln)
+    # repr / str of the driver, its channel and transport, and of every Response / MultiResponse handed to the user
     for (k, text) in obs["reprs"]:
-        if k != "response":
-            scan(k, text)
+        scan(k, text)
     for ex in obs["exceptions"]:
         for c in ex["chain"]:
             scan("exception %s in %s" % (c["cls"], ex["where"]), c["text"] + " " + c["args"])
@@ -686,7 +790,25 @@ def leak_signature(leaks):
 # ------------------------------------------------------------------------------------------------
 # correspondence: channel operations of the run -> model cases
 # ------------------------------------------------------------------------------------------------
-EXC_CODE = {"ScrapliAuthenticationFailed": 1, "ScrapliTimeout": 2, "ScrapliConnectionError": 3}
+EXC_CODE = {"ScrapliAuthenticationFailed": 1, "ScrapliTimeout": 2, "ScrapliConnectionError": 3, "ScrapliCommandFailure": 4}
+
+
+def build_resp_case(pr, rdesc, shown, exc, items):
+    """Coq case term for one probe of a Response / MultiResponse (str, repr, raise_for_status); textfsm parsing is
+    outside the model"""
+    P = items.proj
+    ctor = {"str": "OpRespStr", "repr": "OpRespRepr", "raise_for_status": "OpRespRaise"}.get(pr)
+    if ctor is None:
+        return None
+    r = "(mkResp %s %s %s %s)" % (coq_msg(P(rdesc["host"])), coq_msg(P(rdesc["input"])), coq_msg(P(rdesc["fwc"])), coq_bool(rdesc["failed"]))
+    if exc is not None:
+        trace = ["OExc %d %s" % (EXC_CODE.get(exc[0], 99), coq_msg(P(exc[1])))]
+    elif pr == "raise_for_status":
+        trace = []
+    else:
+        trace = ["ORepr %s" % coq_msg(P(shown))]
+    return "(%s %s, ([] : list rev), (%s : list obs), ([] : msg), %d%%nat)" % (ctor, r, coq_list(trace), 1 if exc is not None else 0)
+
 FLAG_NAMES = ["kick", "user", "pass", "phrase", "prompt", "denied", "input", "expect", "complete"]
 
 
@@ -917,7 +1039,12 @@ def sc_escalate(rng, kind, stack, mode, policy=None, timeout=False, fault=None, 
     dev_secret = {"good": sec2, "bad": canary(rng, "X", 0), "none": None, "empty": None}[mode]
     ops = [["open"]]
     if extra_ops:
-        ops += [["send_command", cmd], ["repr"], ["close"]]
+        # the user looks at the responses: str / repr / raise_for_status (failed ones included)
+        fwc = rng.choice([None, [out[:6]], ["router1", "% Invalid"]])
+        ops += [["send_command", cmd, fwc]]
+        if rng.random() < 0.4:
+            ops += [["send_commands", [cmd, "show nothing%d" % rng.randrange(10)], rng.choice([None, ["OUT-"], [out]])]]
+        ops += [["repr"], ["close"]]
     return {"family": "escalate", "mode": mode, "kind": kind, "stack": stack, "policy": policy or gen_policy(rng),
             "device": {"platform": dev_platform(kind), "login_mode": "exec", "enable_secret": dev_secret},
             "driver_kwargs": {"auth_secondary": "" if mode == "empty" else sec2, "auth_password": canary(rng, "P"),
@@ -974,12 +1101,21 @@ def sc_login_ssh(rng, stack, mode, policy=None):
             "timeout": False, "fault": None}
 
 
-def sc_interact(rng, stack, mode, with_complete):
-    """a user-level send_interactive with a hidden event (generic driver at the exec prompt of an IOS-XE device)"""
+def sc_interact(rng, stack, mode, with_complete, probes=None):
+    """a user-level send_interactive with a hidden event (generic driver at the exec prompt of an IOS-XE device);
+    the response is looked at the way a user does: str(), raise_for_status() (failed_when_contains given: the
+    interaction is marked failed when the device refuses the password / always / never).
+    mode `denied`: the device refuses the hidden input three times and says so (the interaction completes, failed)"""
     hid = canary(rng, "H")
-    dev_secret = {"good": hid, "bad": canary(rng, "X", 0), "none": None}[mode]
-    evs = [["enable", "Password:", False], [hid, "router1#", True]]
-    ops = [["open"], ["send_interactive", evs, ["router1>", "router1#"] if with_complete else None], ["repr"], ["close"]]
+    dev_secret = {"good": hid, "bad": canary(rng, "X", 0), "none": None, "denied": canary(rng, "X", 0)}[mode]
+    if mode == "denied":
+        evs = [["enable", "Password:", False], [hid, "Password:", True], [hid, "Password:", True], [hid, "router1>", True]]
+        fwc = ["% Bad secrets"]
+    else:
+        evs = [["enable", "Password:", False], [hid, "router1#", True]]
+        fwc = rng.choice([None, ["Password"], ["% Bad secrets", "router1"]])
+    ops = [["open"], ["send_interactive", evs, ["router1>", "router1#"] if with_complete else None, fwc] + ([probes] if probes else []),
+           ["repr"], ["close"]]
     return {"family": "interact", "mode": mode + ("+complete" if with_complete else ""), "kind": "generic", "stack": stack,
             "policy": gen_policy(rng),
             "device": {"platform": "cisco_iosxe", "login_mode": "exec", "enable_secret": dev_secret},
@@ -988,13 +1124,71 @@ def sc_interact(rng, stack, mode, with_complete):
             "timeout": False, "fault": None}
 
 
+RT_KINDS = ["generic", "cisco_iosxe", "cisco_nxos", "arista_eos"]
+
+
+def sc_rt(rng, tname, kind, policy=None):
+    """a whole dialogue through the REAL transport plugin `tname` (fake endpoint in front of the device): in-channel
+    login where the plugin has one (system: ssh passphrase / password; telnet: user name / password), then the enable
+    escalation with auth_secondary (network kinds, inside open) or a hidden interactive input (generic driver)"""
+    from .c12_rt import TRANSPORTS
+    stack, front, _excs = TRANSPORTS[tname]
+    pw, ph, sec2 = canary(rng, "P"), canary(rng, "K"), canary(rng, "E")
+    user = "lab%d" % rng.randrange(100)
+    cmd, out = "show yuzu%d" % rng.randrange(100), "OUT-sloe%d" % rng.randrange(1000)
+    dkw = {"auth_username": user, "auth_password": pw, "auth_private_key_passphrase": ph}
+    dv = {"platform": dev_platform(kind), "login_mode": "exec", "enable_secret": sec2}
+    mode = tname
+    if front == "telnet":
+        dv.update(front="telnet", user=user, password=pw, ask_user=True)
+        dkw["timeout_ops"] = 120       # see sc_login_telnet
+    elif front == "ssh":
+        with_phrase = rng.random() < 0.5
+        dv.update(front="ssh", password=pw, passphrase=ph if with_phrase else None)
+        mode += "+phrase" if with_phrase else ""
+    secrets = {"password": pw, "passphrase": ph}
+    if kind == "generic":
+        evs = [["enable", "Password:", False], [sec2, "router1#", True]]
+        ops = [["open"], ["send_interactive", evs, ["router1>", "router1#"], rng.choice([None, ["Password"]])], ["repr"], ["close"]]
+        secrets["hidden"] = sec2
+    else:
+        dkw["auth_secondary"] = sec2
+        ops = [["open"], ["send_command", cmd, rng.choice([None, ["OUT-"]])], ["repr"], ["close"]]
+        secrets["secondary"] = sec2
+    return {"family": "rt", "mode": mode, "kind": kind, "stack": stack, "transport": tname,
+            "policy": policy or (["whole"] if stack != "sync" else gen_policy(rng)), "device": dv, "driver_kwargs": dkw,
+            "secrets": secrets, "outputs": {cmd: out}, "publics": [cmd, out, user, "enable"], "ops": ops,
+            "timeout": False, "fault": None}
+
+
+def rt_faults(rng, sc, obs, every):
+    """the same dialogue with the endpoint dead at one of its writes: at EVERY write that carries a secret, and at
+    one other write (all other writes when `every`); the exception is one the plugin's endpoint raises"""
+    from .c12_rt import TRANSPORTS
+    secs = [v for v in all_secrets(sc).values() if v]
+    writes = [e[1] for e in obs["events"] if e[0] == "twrite"]
+    hot = [i + 1 for i, w in enumerate(writes) if any(occurs(v, as_text(w)) for v in secs)]
+    cold = [i + 1 for i in range(len(writes)) if i + 1 not in hot]
+    if not every and cold:
+        cold = [rng.choice(cold)]
+    out = []
+    for k in hot + cold:
+        f = dict(sc, fault={"write_at": k, "exc": rng.choice(TRANSPORTS[sc["transport"]][2])},
+                 mode=sc["mode"].split("+")[0] + ("+secret-write-fault" if k in hot else "+write-fault"), stop_on_error=False)
+        f.pop("finding", None)
+        out.append(f)
+    return out
+
+
 def corpus(rng):
     out = []
     for stack in ("sync", "async"):
         # the baseline defect: `enable` granted without a password prompt (DESIGN section 6 #29)
         for kind in ENABLE_PLATFORMS:
             out.append(sc_escalate(rng, kind, stack, "none", policy=["whole"]))
-        out.append(sc_escalate(rng, "cisco_iosxe", stack, "good", policy=["whole"]))
+        sc = sc_escalate(rng, "cisco_iosxe", stack, "good", policy=["whole"])
+        sc["ops"][1] = sc["ops"][1][:3] + [["str", "repr", "raise_for_status", "textfsm"]]
+        out.append(sc)
         out.append(sc_escalate(rng, "cisco_iosxe", stack, "bad", policy=["whole"]))
         out.append(sc_escalate(rng, "cisco_iosxe", stack, "bad", policy=["whole"], timeout=True))
         out.append(sc_escalate(rng, "arista_eos", stack, "empty", policy=["bytes", 3]))
@@ -1003,12 +1197,24 @@ def corpus(rng):
         out.append(sc_interact(rng, stack, "good", True))
         out.append(sc_interact(rng, stack, "none", True))
         out.append(sc_interact(rng, stack, "bad", False))
+        out.append(sc_interact(rng, stack, "denied", False))
         out.append(sc_login_ssh(rng, stack, "good", policy=["whole"]))
         out.append(sc_login_ssh(rng, stack, "bad", policy=["whole"]))      # sync: `permission denied` branch
         out.append(sc_login_ssh(rng, stack, "phrase-good", policy=["whole"]))
         out.append(sc_login_ssh(rng, stack, "phrase-bad", policy=["whole"]))
     for (tname, stack, attr) in REAL_TRANSPORTS:
         out.append(sc_transport(rng, tname, stack, attr))
+        # the endpoint is dead exactly when the password / the passphrase / the hidden input is written
+        for k in (1, 5, 7):
+            out.append(sc_transport(rng, tname, stack, attr, fault_at=k))
+        # whole dialogues through the real plugin (their write-fault variants are derived from the run: rt_faults)
+        if tname != "ssh2" and stack == "sync":
+            out.append(sc_rt(rng, tname, "generic", policy=["whole"]))
+            out.append(sc_rt(rng, tname, rng.choice(RT_KINDS[1:]), policy=["whole"]))
+        elif tname != "ssh2":
+            # the asyncio logins sleep per loop iteration: one dialogue per plugin here (hidden interactive input or
+            # escalation), more of them in the thorough tier's random stream
+            out.append(sc_rt(rng, tname, rng.choice(RT_KINDS), policy=["whole"]))
     out.append(sc_login_telnet(rng, "cisco_iosxe", "sync", "good"))
     out.append(sc_login_telnet(rng, "generic", "sync", "bad"))
     out.append(sc_login_telnet(rng, "cisco_nxos", "sync", "pwonly"))
@@ -1026,9 +1232,14 @@ def corpus(rng):
     return out
 
 
-def gen_scenario(rng):
-    fam = rng.choice(["escalate"] * 5 + ["interact"] * 2 + ["login_ssh"] * 2 + ["login_telnet"] * 2 + ["junos"])
+def gen_scenario(rng, with_rt=False):
+    """with_rt (thorough tier): also whole dialogues through the real transport plugins beyond the corpus's ten"""
+    fam = rng.choice(["escalate"] * 5 + ["interact"] * 2 + ["login_ssh"] * 2 + ["login_telnet"] * 2 + ["junos"] + (["rt"] if with_rt else []))
     stack = rng.choice(["sync", "sync", "async"])
+    if fam == "rt":
+        # the asyncio logins sleep per loop iteration: fewer of them
+        tname = rng.choice(["system", "system", "telnet", "paramiko", "paramiko", "asynctelnet", "asyncssh"])
+        return sc_rt(rng, tname, rng.choice(RT_KINDS))
     if fam == "escalate":
         mode = rng.choice(["good", "good", "bad", "none", "none", "empty"])
         sc = sc_escalate(rng, rng.choice(ENABLE_PLATFORMS), stack, mode, timeout=(mode == "bad" and rng.random() < 0.15))
@@ -1041,7 +1252,7 @@ def gen_scenario(rng):
             sc["mode"] += "+write-error"
         return sc
     if fam == "interact":
-        return sc_interact(rng, stack, rng.choice(["good", "bad", "none"]), rng.random() < 0.6)
+        return sc_interact(rng, stack, rng.choice(["good", "bad", "none", "denied"]), rng.random() < 0.6)
     if fam == "login_ssh":
         if stack != "sync" and rng.random() < 0.5:
             stack = "sync"      # the asyncio twin sleeps 0.1 s per loop iteration: fewer of them
@@ -1115,7 +1326,10 @@ def summarize(obs):
     return {"exceptions": [[c["cls"] for c in e["chain"]] for e in obs["exceptions"]],
             "device_log": [[m, l.decode("latin-1")] for (m, l, o) in obs["device_log"]][:12], "skipped": obs.get("skipped"),
             "n_records": sum(1 for e in obs["events"] if e[0] == "log"),
-            "n_writes": sum(1 for e in obs["events"] if e[0] == "twrite")}
+            "n_writes": sum(1 for e in obs["events"] if e[0] == "twrite"),
+            "failed_writes": [as_text(obs["events"][i - 1][1])[:80] for i, e in enumerate(obs["events"])
+                              if e[0] == "twrite_exc" and i and obs["events"][i - 1][0] == "twrite"][:4],
+            "responses": obs.get("responses", [])[:6]}
 
 
 def run(rep):
@@ -1124,6 +1338,7 @@ def run(rep):
     rng = rep.rng
     thorough = rep.tier == "thorough"
     info = {}
+    ok, _ = rep.build_static()
     # 1. regenerate the sink table from the source
     try:
         _, info, rows = gen_sinks.generate(rep.workdir, common.REPO)
@@ -1135,7 +1350,6 @@ def run(rep):
         rep.broken.append("gen_sinks:%s" % e)
         rows = []
     # 2. proofs
-    ok, _ = rep.build_static()
     rep.add_static_obligations("props/C12.v", ok)
     if not ok:
         rep.broken.append("static-build")
@@ -1143,7 +1357,8 @@ def run(rep):
     if ok and not [b for b in rep.broken if not b.startswith("forbidden")]:
         props_ok, _ = rep.compile_props("props/C12.v")
     if rows:
-        bad_rows = [r for r in rows if any(i in SECRET_IDENTS and not (set(g) & {"redacted", "hidden_input"}) for (i, g) in r[4])]
+        bad_rows = [r for r in rows if any(i in SECRET_IDENTS and not (set(g) & {"redacted", "hidden_input"}) for (i, g) in r[4])
+                    and (r[1], r[3]) not in KNOWN_REGION]
         if bad_rows:
             rep.notes.append("sinks a secret-carrying identifier reaches unguarded: " + "; ".join(
                 "%s:%d %s <- %s" % (r[1], r[2], r[3], [i for (i, g) in r[4] if i in SECRET_IDENTS and not (set(g) & {"redacted", "hidden_input"})]) for r in bad_rows[:8]))
@@ -1152,7 +1367,7 @@ def run(rep):
     n_mal = 400 if thorough else 30
     if rep.broken:
         n_gen *= 2      # an obligation broke: widen the search for a concrete leaking input
-    scenarios = corpus(rng) + [gen_scenario(rng) for _ in range(n_gen)] + [gen_malformed(rng) for _ in range(n_mal)]
+    scenarios = corpus(rng) + [gen_scenario(rng, with_rt=thorough) for _ in range(n_gen)] + [gen_malformed(rng) for _ in range(n_mal)]
     # replays of listed findings run first
     for f in rep.findings:
         p = os.path.join(common.VERIF, f.get("replay", ""))
@@ -1162,8 +1377,10 @@ def run(rep):
             except Exception as e:  # noqa
                 rep.notes.append("finding replay %s unreadable: %s" % (p, e))
     dist = {"family": {}, "mode": {}, "stack": {}, "kind": {}, "policy": {}, "exception": {}, "ops_modelled": {},
-            "secret_len": {}, "metachar_secrets": 0, "writes_redacted": 0, "writes_shown": 0, "flag_hits": {}}
+            "secret_len": {}, "metachar_secrets": 0, "writes_redacted": 0, "writes_shown": 0, "flag_hits": {},
+            "responses": {}, "response_probes": {}, "write_faults": {}, "real_transport": {}}
     terms, term_src = [], []
+    resp_terms = set()
     nviol = 0
     wd = os.path.join(rep.workdir, "run")
     for si, sc in enumerate(scenarios):
@@ -1178,6 +1395,20 @@ def run(rep):
         for e in obs["exceptions"]:
             c = e["chain"][0]["cls"]
             dist["exception"][c] = dist["exception"].get(c, 0) + 1
+        for rs in obs.get("responses", []):
+            key = "%s %s%s" % (rs["cls"], "failed" if rs["failed"] else "ok", " hidden-input" if rs["hidden"] else "")
+            dist["responses"][key] = dist["responses"].get(key, 0) + 1
+            for pr in rs["probes"]:
+                dist["response_probes"][pr] = dist["response_probes"].get(pr, 0) + 1
+        if sc["family"] == "rt":
+            dist["real_transport"][sc["transport"]] = dist["real_transport"].get(sc["transport"], 0) + 1
+        if (sc.get("fault") or {}).get("write_at") and sc["family"] in ("rt", "transport-write"):
+            # did the fault hit a write that carried a secret, and what reached the user
+            hit = any(e[0] == "twrite_exc" for e in obs["events"]) or any(x["where"] == "write" for x in obs["exceptions"])
+            key = "%s %s %s" % (sc["transport"], sc["fault"]["exc"], "hit" if hit else "not-reached")
+            dist["write_faults"][key] = dist["write_faults"].get(key, 0) + 1
+        if sc["family"] == "rt" and not sc.get("fault") and not sc.get("finding"):
+            scenarios.extend(rt_faults(rng, sc, obs, thorough))
         secs = all_secrets(sc)
         for v in secs.values():
             b = min(len(v) // 8 * 8, 64)
@@ -1218,6 +1449,20 @@ def run(rep):
             terms.append(term)
             term_src.append((si, label, exc))
             rep.evaluations += 1
+        for ev in obs["events"]:
+            if ev[0] != "resp_probe":
+                continue
+            term = build_resp_case(ev[1], ev[2], ev[3], ev[4], items)
+            if term is None:
+                continue
+            label = "Response." + ev[1]
+            dist["ops_modelled"][label] = dist["ops_modelled"].get(label, 0) + 1
+            rep.evaluations += 1
+            if term in resp_terms:
+                continue            # the same abstract probe (same atoms shown) was already handed to the model
+            resp_terms.add(term)
+            terms.append(term)
+            term_src.append((si, label, ev[4][0] if ev[4] else None))
     bad, log = common.eval_cases(rep.workdir, "cases_c12", HEADER, terms, "chk", shard=300)
     rep.coverage["correspondence"] = {"suite": "secrets", "scenarios": len(scenarios), "model_cases": len(terms),
                                       "distribution": dist, "model_disagreements": None if bad is None else len(bad),
@@ -1226,8 +1471,11 @@ def run(rep):
     rep.coverage["generated"] = {k: info.get(k) for k in ("sinks", "log", "raise", "repr", "files")}
     rep.coverage["secret_reaching_sinks"] = info.get("secret_reaching", [])
     rep.rule = ("scenario = (family, mode, driver kind, stack, chunking policy, canary values); corpus (the enable-without-password "
-                "defect on every platform and stack, permission denied, rejected logins, disconnects, timeouts) + seeded scenarios + "
+                "defect on every platform and stack, permission denied, rejected logins, disconnects, timeouts, refused hidden inputs "
+                "with failed responses, every real transport plugin with a fake endpoint: whole login / escalation / hidden-input "
+                "dialogues and the endpoint dead at every secret-carrying write) + seeded scenarios + "
                 "a malformed stream (all-metacharacter / very long / format-looking secrets, truthy non-bool hidden flag); "
+                "every Response / MultiResponse handed to the user is probed with str(), raise_for_status() and (no hidden input) repr(); "
                 "non-trivial = a secret was actually typed at the device; every scenario is scanned by the oracle, every channel "
                 "operation and _escalate call inside it is one model case")
     if bad is None:
@@ -1268,6 +1516,8 @@ def run(rep):
                     break
 
 
+# the sinks of the known finding C12-response-hidden-input (model/Secrets.v [known_region])
+KNOWN_REGION = {("scrapli/response.py", "Response.__repr__"), ("scrapli/helper.py", "_textfsm_get_template")}
 SECRET_IDENTS = {"auth_password", "auth_private_key_passphrase", "auth_secondary", "interact_event[0]",
                  "interact_events[0]", "interact_event", "interact_events"}
 
@@ -1292,27 +1542,45 @@ def replay(path):
 MANIFEST = {
     "text": "Coq theorems (props/C12.v, axiom-free) over an executable model of BaseChannel.write/read, the read loops, "
             "channel_authenticate_telnet/ssh (both twins), get_prompt, send_input, send_inputs_interact, NetworkDriver._escalate and "
-            "BaseDriver.__repr__/__str__ extended with the stream of observables (log records, channel log, exception messages, repr): "
+            "BaseDriver.__repr__/__str__, Response / MultiResponse __repr__/__str__/raise_for_status extended with the stream of observables "
+            "(log records, channel log, exception messages, repr): "
             "T1 for ALL operation sequences and ALL histories (chunkings, pattern answers, disconnects, timeouts, blocking reads; failing "
             "paths included) no observable contains a secret atom when the device does not print it; T2 a secret is only ever typed in "
             "answer to the prompt that asks for it (any device); T3 hence with a causal device (it can only echo what was typed unasked) "
             "nothing observable contains a secret; the code before the repair of the enable-without-password defect is refuted by a "
-            "vm_compute witness. Static obligation decided in Coq by computation over Gen_Sinks.v (regenerated from the source on every "
-            "run): over every logger call, raise and __repr__/__str__ of the anchored files and the files between them and the "
-            "credentials, no secret-carrying identifier (closed under local assignments and call edges) reaches the message except "
-            "under the redacted / hidden_input guard. Partial / observed only: the real runtime is observed, not proved — canary "
-            "secrets (regex/format metacharacters included) through telnet login, system-ssh login, enable / root-shell escalation and "
-            "hidden interact events on every core driver, sync and asyncio, good / rejected / unasked / disconnect / timeout paths, "
-            "DEBUG on the whole 'scrapli' logger tree, both file handlers, repr/str, str(exception chain), and what the device executed.",
+            "vm_compute witness; str() / raise_for_status() of ANY response show nothing of its channel input, repr() of a response is "
+            "secret-free exactly when its channel_input is (full statement refuted: response of an interaction with a hidden input). Static obligation decided in Coq by computation over Gen_Sinks.v (regenerated from the source on every "
+            "run): over every logger call, raise and __repr__/__str__ of EVERY module of the scrapli package (anchored files, the files "
+            "between them and the credentials, scrapli/response.py, helper.py, factory.py, ptyprocess.py, ...), no secret-carrying "
+            "identifier (closed under local assignments, call edges and attribute stores: Response.channel_input stands for the joined "
+            "interact inputs) reaches the message except under the redacted / hidden_input guard — PARTIAL: outside the two sinks of the "
+            "known finding C12-response-*-hidden-input (Response.__repr__, the `no template` warning of textfsm_parse_output), for "
+            "which the full statement is refuted by computation. Partial / observed only: the real runtime is observed, not proved — "
+            "canary secrets (regex/format metacharacters included) through telnet login, system-ssh login, enable / root-shell "
+            "escalation and hidden interact events on every core driver, sync and asyncio, good / rejected / refused / unasked / "
+            "disconnect / timeout paths, DEBUG on the whole 'scrapli' logger tree, both file handlers, repr/str, str(exception chain), "
+            "what the device executed; str() / repr() / raise_for_status() of every Response and MultiResponse handed to the user "
+            "(failed responses of hidden interactions and of commands after an escalation included); whole login / escalation / "
+            "hidden-input dialogues through the REAL system, telnet, asynctelnet, paramiko and asyncssh transport classes over a fake "
+            "endpoint, and the same dialogues with the endpoint dead (EIO / EBADF / EPIPE / ECONNRESET / EOF) at every write that "
+            "carries a secret and at other writes; channel.write(redacted) through every plugin with the endpoint dead at the secret.",
     "note": "Trusted: Coq kernel + vm_compute; the hand model coq/model/Secrets.v (tied to the code by running every channel operation "
             "of every scenario through the model on the history observed at the transport: same write records REDACTED-or-shown, reads, "
             "channel log, exception class; other records compared as sets of data items); gen/gen_sinks.py (identifier-level value flow "
-            "is a syntactic approximation of Python semantics: attribute names not objects, calls resolved by name and receiver, no "
+            "is a syntactic approximation of Python semantics: attribute names not objects (an attribute load stands for every store "
+            "under that name: class family for self, package-wide otherwise), calls resolved by name and receiver, no "
             "aliasing through containers, getattr/**kwargs/format(**vars()) not followed); SimDevice and the login front-ends. Pattern "
             "matching is abstracted (the answers are part of the universally quantified history). Not modelled: transports' own "
             "authentication (paramiko/asyncssh/ssh2 take the password through library calls: covered by the sink table only), "
-            "send_input_and_read, read_callback, Response.__repr__ (shows the joined interact inputs, hidden ones included — outside the "
-            "property's wording: repr of a driver), asyncio TimeoutError iterations of the asyncio ssh login. A device that echoes "
+            "send_input_and_read, read_callback, asyncio TimeoutError iterations of the asyncio ssh login. Response / MultiResponse "
+            "str / repr / raise_for_status are modelled (resp record built from host, channel_input, failed_when_contains of the real "
+            "object; one model case per probe). ORACLE-ONLY (no Coq model, covered by the sink table + the canary oracle): "
+            "Response.textfsm_parse_output and every run with a failing transport write (model cases stop at a twrite exception); the real "
+            "transport plugins are driven through fake endpoints (harness/c12_rt.py: open() replaced on the instance, the library "
+            "authentication of paramiko / asyncssh / ssh2 is not run; ssh2 is skipped when not installed). Known findings, kept out of "
+            "the main exploration and replayed: repr(Response) and Response.textfsm_parse_output() of a send_interactive with a hidden "
+            "input show it (Response.channel_input is the join of all event inputs); repr() is therefore only probed on responses "
+            "without hidden inputs. A device that echoes "
             "what it asks for in a password dialogue is outside the theorems' hypothesis (the `permission denied` message and the read "
             "records copy device output).",
     "technique": "Coq proof by induction over histories / event lists with a trace invariant + by-computation obligation over an "
